@@ -676,6 +676,11 @@ def enum_cases(tier):
             arr = {"shape": shape, "dtype": "i8", "seed": i % 97, "fill": "small", "chunks": ch}
             row = {"shape": [1] + shape[1:], "dtype": "f8", "seed": (i + 1) % 97, "fill": "small", "chunks": [[1]] + [[n] for n in shape[1:]]}
             full = {"shape": shape, "dtype": "f8", "seed": (i + 2) % 97, "fill": "small", "chunks": [list(ch[0])] + [[n] for n in shape[1:]]}
+            # ufunc(..., out=z): z chunked in every other way with and without the same number of blocks
+            if nd <= 2:
+                for k, ch2 in enumerate(A.all_chunkings(shape)):
+                    if ch2 != ch and (nd == 1 or (i + k) % 3 == 0):
+                        yield {"inputs": [arr], "steps": [{"op": "ew_out", "chunks": ch2}]}
             for swap in (False, True):
                 yield {"inputs": [arr, row], "steps": [{"op": "map_blocks_bin", "input": 1, "swap": swap}]}
                 yield {"inputs": [arr, full], "steps": [{"op": "getitem", "index": [{"slice": [None, 1, None]}]}, {"op": "map_blocks_bin", "input": 1, "swap": swap}]}
